@@ -55,12 +55,26 @@ Theorem C12_noninterference_generic :
 Proof. intros fields Hc prog s s' Hn. exact (proj1 (noninterference fields Hc prog s s' Hn)). Qed.
 
 (** Residual state.  The only process-global DSL objects outside the classes are the two null objects;
-    they are not reset.  The cached value of [null_point] leaks: the program
+    they are not reset, and no function of PEPit writes to them (no attribute / dictionary write, no
+    set_name, no class defines an in-place operator such as __iadd__).  The cached value of [null_point] leaks: the program
     [PEP(); Point(); null_point.eval()] yields a vector of length 1 in a fresh interpreter and of length 3
     after the history [PEP(); Point() x3; null_point.eval()]  (finding F-C12a). *)
 Theorem C12_residual_is_null_objects :
-  map (fun t => snd (fst t)) module_objects = ["null_expression"; "null_point"].
+  map (fun t => snd (fst t)) module_objects = ["null_expression"; "null_point"]
+  /\ module_object_writes = [].
 Proof. exact gen_residual. Qed.
+
+(** ... but it leaks nowhere else: for ALL programs starting with [PEP()] (null_point.eval() allowed), every
+    output other than the length returned by null_point.eval() itself, and every counter / registry, is the
+    same from any two states: the cache cannot reach the solver input. *)
+Theorem C12_null_cache_stays_out_of_globals :
+  forall (prog : list op) (s s' : pstate),
+    map mask (fst (run (fields_of reset_fields) (NewPEP :: prog) s))
+    = map mask (fst (run (fields_of reset_fields) (NewPEP :: prog) s'))
+    /\ (forall k, In k model_keys ->
+                  glob (snd (run (fields_of reset_fields) (NewPEP :: prog) s)) k
+                  = glob (snd (run (fields_of reset_fields) (NewPEP :: prog) s')) k).
+Proof. exact (noninterference_masked gen_fields gen_covers). Qed.
 
 Theorem C12_null_point_leak_refuted :
   exists (hist prog : list op) (s0 : pstate),
@@ -95,12 +109,16 @@ Example C12_example :
                 VN 1; VL [Some 0]; VN 1]]%Z
   /\ fst (run f prog (snd (run f hist (init_state (fields_of class_attrs)))))
      <> fst (run f prog (init_state (fields_of class_attrs))).
-Proof. cbv zeta. repeat split; try (vm_compute; reflexivity). vm_compute. discriminate. Qed.
+Proof.
+  cbv zeta. split; [reflexivity|]. split; [vm_compute; reflexivity|]. split; [vm_compute; reflexivity|].
+  vm_compute. discriminate.
+Qed.
 
 Print Assumptions C12_reset_total.
 Print Assumptions C12_model_covers_sources.
 Print Assumptions C12_noninterference.
 Print Assumptions C12_noninterference_generic.
 Print Assumptions C12_residual_is_null_objects.
+Print Assumptions C12_null_cache_stays_out_of_globals.
 Print Assumptions C12_null_point_leak_refuted.
 Print Assumptions C12_verbosity.
